@@ -304,8 +304,14 @@ class MessagePackRpc(MessagePackDocument):
             ctx.in_error = Fault(**ctx.in_error)
 
         elif body_class:
+            doc = ctx.in_body_doc
+            if doc is None:
+                # params is nil. an empty in_object would make the call fail
+                # with a TypeError (missing positional arguments).
+                doc = ()
+
             ctx.in_object = self._doc_to_object(ctx,
-                                    body_class, ctx.in_body_doc, self.validator)
+                                                body_class, doc, self.validator)
 
         else:
             ctx.in_object = []
